@@ -2,6 +2,7 @@ package conc
 
 import (
 	"fmt"
+	"strings"
 	"testing"
 
 	"pgregory.net/rapid"
@@ -348,10 +349,17 @@ func failure(c Case, rep int, hist bool, procs int, err error, recs []rec) error
 	if hist {
 		mode = "history mode"
 	}
-	s := fmt.Sprintf("%v\nrepetition %d, %s, GOMAXPROCS=%d, program:\n%s", err, rep, mode, procs, programText(c))
-	if hist && recs != nil && len(recs) <= 120 {
+	msg := err.Error()
+	first := msg
+	if i := strings.Index(msg, "\n"); i >= 0 {
+		first = msg[:i]
+	}
+	s := fmt.Sprintf("%s\nrepetition %d, %s, GOMAXPROCS=%d, program:\n%s", msg, rep, mode, procs, programText(c))
+	if hist && recs != nil && len(recs) <= 150 {
 		s += "  observed history:\n" + historyText(recs)
 	}
+	// the driver prints only the tail of the output: repeat the verdict at the end
+	s += "VERDICT: " + first + "\n"
 	return fmt.Errorf("%s", s)
 }
 
